@@ -746,3 +746,32 @@ Proof.
     clear Hsel. revert Hc. generalize (c_hash c). intros k. induction (cache s) as [|[k' v] m IH]; cbn; [discriminate|].
     destruct (str_eqb_spec k k') as [->|Hne]; [intros H; injection H as ->; auto | auto].
 Qed.
+
+(** ======== adding leaves the certificate cached; nothing else appears ======== *)
+Lemma add_cert_cached cap c v s : amem (c_hash c) (cache (add_cert cap c v s)) = true.
+Proof.
+  unfold add_cert. destruct (alookup (c_hash c) (cache s)) as [e|] eqn:E.
+  - destruct (tags_guard (c_tags c)); cbn [cache].
+    + rewrite amem_ainsert, str_eqb_refl. reflexivity.
+    + apply amem_alookup. eauto.
+  - cbn [cache]. rewrite amem_ainsert, str_eqb_refl. reflexivity.
+Qed.
+Lemma evict_shrinks v s h : amem h (cache (evict v s)) = true -> amem h (cache s) = true.
+Proof.
+  intros H. apply amem_alookup in H. destruct H as [c Hc]. apply evict_lookup in Hc.
+  apply amem_alookup. eauto.
+Qed.
+Lemma add_cert_only_adds cap c v s h :
+  amem h (cache (add_cert cap c v s)) = true -> h = c_hash c \/ amem h (cache s) = true.
+Proof.
+  unfold add_cert. destruct (alookup (c_hash c) (cache s)) as [e|] eqn:E.
+  - destruct (tags_guard (c_tags c)); cbn [cache]; [|auto].
+    rewrite amem_ainsert. destruct (str_eqb_spec (c_hash c) h); auto.
+  - cbn [cache]. rewrite amem_ainsert. destruct (str_eqb_spec (c_hash c) h) as [->|Hne]; [auto|].
+    cbn [orb]. intros H. right. destruct (at_capacity cap s); [eapply evict_shrinks; eauto | exact H].
+Qed.
+Lemma nodup_b_true l : nodup_b l = true -> NoDup l.
+Proof.
+  induction l as [|x l IH]; cbn; [constructor|]. intros H. apply andb_true_iff in H. destruct H as [H1 H2].
+  constructor; [apply mem_str_false, negb_true_iff, H1 | auto].
+Qed.
